@@ -186,13 +186,16 @@ theorem move_postcondition {l : List Nat} {h : Heap} (hR : Rep l h) {n m : Nat} 
 
 example := move_postcondition demo_rep (n := 2) (m := 3) (by simp) (by simp) (by decide)
 
-/-- **A removed node has neither neighbour.** -/
+/-- **A removed node has neither neighbour** — and it is the removed node itself (still allocated,
+`valueOf … = some _`) whose links are nil, not a never-allocated id for which the totalised
+`prevOf`/`nextOf` would answer `none` as well. -/
 theorem remove_clears_links {l : List Nat} {h : Heap} (hR : Rep l h) {n : Nat} (hn : n ∈ l) :
+    (valueOf (apply h (.remove n)).h n).isSome ∧
     prevOf (apply h (.remove n)).h n = none ∧ nextOf (apply h (.remove n)).h n = none := by
   have hI := inv_of_rep hR
   obtain ⟨_, _, _, h4, h5, h6, _⟩ := remove_spec hI hn
   have hl := (h4.value n (hI.linked.live n hn)).1
-  exact ⟨by rw [prevOf_live hl]; exact h5, by rw [nextOf_live hl]; exact h6⟩
+  exact ⟨by rw [valueOf_isSome]; exact hl, by rw [prevOf_live hl]; exact h5, by rw [nextOf_live hl]; exact h6⟩
 
 example := remove_clears_links demo_rep (n := 0) (by simp)
 
@@ -229,14 +232,19 @@ example := values_untouched demo_rep (.insertBefore 9 3) (by simp [Op.wellFormed
 /-- **Every history refines the ideal sequence.** From any heap that represents `l`, any sequence
 of operations each applied with handles of nodes in the list at that moment: no operation panics, the
 final heap represents the result of the same history on the ideal sequence (so both walks, both
-ends and `Len` are right after every prefix, this being a statement about arbitrary `os`), no value
-ever changes, and every node removed during the history has neither neighbour at the end. -/
+ends and `Len` are right after every prefix, this being a statement about arbitrary `os`), no node
+that existed before the history changes its value (for the nodes created during the history see
+`created_value_kept`), and every node removed by a `Remove` of the history is still allocated and has
+neither neighbour at the end. ("Removed" is read as "removed by `Remove`": the nodes dropped by
+`Clear` keep their stale links — the code does not unlink them — a disclosed narrowing of the text,
+`checks/C06.json` assumptions.) -/
 theorem history_refines {l : List Nat} {h : Heap} (hR : Rep l h) (os : List Op)
     (hwf : HistWF l h.nextId os) :
     let t := runP h os
     t.2 = false ∧ Rep (runSpec l h.nextId os) t.1 ∧
       (∀ x, (valueOf h x).isSome → valueOf t.1 x = valueOf h x) ∧
-      (∀ n ∈ removedIn os, n ∉ runSpec l h.nextId os ∧ prevOf t.1 n = none ∧ nextOf t.1 n = none) := by
+      (∀ n ∈ removedIn os, n ∉ runSpec l h.nextId os ∧ (valueOf t.1 n).isSome ∧
+        prevOf t.1 n = none ∧ nextOf t.1 n = none) := by
   obtain ⟨h1, h2, h3, h4⟩ := history_inv (R := []) (inv_of_rep hR) (by simp [Unlinked]) os hwf
   refine ⟨h1, rep_of_inv h2, ?_, ?_⟩
   · intro x hx
@@ -245,17 +253,58 @@ theorem history_refines {l : List Nat} {h : Heap} (hR : Rep l h) (os : List Op)
     simp only [valueOf, Store.get_of_isSome hx, Store.get_of_isSome v1, Option.map_some, v2]
   · intro n hn
     obtain ⟨u1, u2, u3, u4⟩ := h4 n (by simpa using hn)
-    exact ⟨u1, by rw [prevOf_live u2]; exact u3, by rw [nextOf_live u2]; exact u4⟩
+    exact ⟨u1, by rw [valueOf_isSome]; exact u2, by rw [prevOf_live u2]; exact u3, by rw [nextOf_live u2]; exact u4⟩
 
 example := history_refines demo_rep [.moveToBack 3, .remove 0, .clear, .pushBack 1]
   (by simp [HistWF, Op.wellFormed, step])
 
+/-- **Values are never touched, whole-history form for nodes created mid-history**: every node
+created by a `PushFront` / `PushBack` / `InsertBefore` / `InsertAfter` of the history still carries,
+at the end of the history, exactly the value it was created with (whatever moves, removals and
+`Clear`s came after). Together with conjunct 3 of `history_refines` (nodes that existed before the
+history) this is "no value ever changes" for every node. -/
+theorem created_value_kept {l : List Nat} {h : Heap} (hR : Rep l h) (os : List Op)
+    (hwf : HistWF l h.nextId os) :
+    ∀ c ∈ createdIn h.nextId os, valueOf (runP h os).1 c.1 = some c.2 := by
+  induction os generalizing l h with
+  | nil => intro c hc; simp [createdIn] at hc
+  | cons o os ih =>
+    obtain ⟨hwo, hwt⟩ := hwf
+    obtain ⟨_, _, hR', hn'⟩ := rep_step hR o hwo
+    have hwt' : HistWF (step l h.nextId o) (apply h o).h.nextId os := by rw [hn']; exact hwt
+    have htail := ih hR' hwt'
+    rw [hn'] at htail
+    have hrun : (runP h (o :: os)).1 = (runP (apply h o).h os).1 := rfl
+    intro c hc
+    rw [hrun]
+    cases hv : Op.createdValue o with
+    | none =>
+      simp only [createdIn, hv] at hc
+      exact htail c hc
+    | some v =>
+      simp only [createdIn, hv, List.mem_cons] at hc
+      rcases hc with rfl | hc
+      · -- the node created by `o`: it has value `v` right after `o`, and the rest of the history
+        -- does not touch values of existing nodes
+        have hcr : o = .pushFront v ∨ o = .pushBack v ∨ (∃ m, o = .insertBefore v m) ∨
+            ∃ m, o = .insertAfter v m := by
+          cases o <;> simp [Op.createdValue] at hv <;> subst hv <;> simp
+        have hval := ((values_untouched hR o hwo).2.2 v hcr).1
+        obtain ⟨_, _, hkeep, _⟩ := history_refines hR' os hwt'
+        rw [hkeep h.nextId (by rw [hval]; rfl)]
+        exact hval
+      · exact htail c hc
+
+example : createdIn 4 [.moveToBack 3, .pushBack 7, .clear, .insertAfter 9 4] = [(4, 7), (5, 9)] := by
+  decide
+
 /-- The same from the zero `List`: every history of the ten operations. -/
 theorem history_from_empty (os : List Op) (hwf : HistWF [] 0 os) :
     (runP {} os).2 = false ∧ Rep (runSpec [] 0 os) (runP {} os).1 ∧
+      (∀ c ∈ createdIn 0 os, valueOf (runP {} os).1 c.1 = some c.2) ∧
       ∀ n ∈ removedIn os, prevOf (runP {} os).1 n = none ∧ nextOf (runP {} os).1 n = none := by
   obtain ⟨h1, h2, _, h4⟩ := history_refines rep_init os hwf
-  exact ⟨h1, h2, fun n hn => (h4 n hn).2⟩
+  exact ⟨h1, h2, created_value_kept rep_init os hwf, fun n hn => (h4 n hn).2.2⟩
 
 example := history_from_empty demoOps demo_wf
 
